@@ -115,6 +115,31 @@ func (p *Prog) Graph(f *Func) *Graph {
 		}
 		return true
 	})
+	own := func(a ast.Node, n *Node) {
+		ast.Inspect(a, func(x ast.Node) bool {
+			if x == nil {
+				return true
+			}
+			if _, ok := x.(*ast.FuncLit); ok {
+				g.owner[x] = n
+				return false
+			}
+			if _, dup := g.owner[x]; !dup {
+				g.owner[x] = n
+			}
+			return true
+		})
+	}
+	isComposite := func(e ast.Expr) bool {
+		switch x := ast.Unparen(e).(type) {
+		case *ast.BinaryExpr:
+			return x.Op == token.LAND || x.Op == token.LOR
+		case *ast.UnaryExpr:
+			return x.Op == token.NOT
+		}
+		return false
+	}
+	pending := map[*cfg.Block]ast.Expr{}
 	for _, b := range c.Blocks {
 		if !b.Live {
 			continue
@@ -133,18 +158,18 @@ func (p *Prog) Graph(f *Func) *Graph {
 			if _, isComm := commOf[a]; isComm && !(b.Kind == cfg.KindSelectCaseBody && idx == 0) {
 				continue
 			}
+			// go/cfg keeps `a && b`, `a || b`, `!a` conditions as one node; they are
+			// expanded into one node per operand with short-circuit edges below.
+			if idx == len(nodes)-1 && len(b.Succs) == 2 && b.Succs[0].Kind != cfg.KindRangeBody {
+				if ce, ok := a.(ast.Expr); ok && isComposite(ce) {
+					if _, isCase := caseTag[ce]; !isCase {
+						pending[b] = ce
+						continue
+					}
+				}
+			}
 			n := newNode(NNormal, a, b)
-			ast.Inspect(a, func(x ast.Node) bool {
-				if x == nil {
-					return true
-				}
-				if _, ok := x.(*ast.FuncLit); ok {
-					g.owner[x] = n
-					return false
-				}
-				g.owner[x] = n
-				return true
-			})
+			own(a, n)
 			if prev != nil {
 				link(prev, n)
 			} else {
@@ -159,11 +184,42 @@ func (p *Prog) Graph(f *Func) *Graph {
 		}
 		last[b] = prev
 	}
+	var expand func(e ast.Expr, b *cfg.Block, t, f *Node) *Node
+	expand = func(e ast.Expr, b *cfg.Block, t, f *Node) *Node {
+		switch x := ast.Unparen(e).(type) {
+		case *ast.BinaryExpr:
+			if x.Op == token.LAND {
+				y := expand(x.Y, b, t, f)
+				return expand(x.X, b, y, f)
+			}
+			if x.Op == token.LOR {
+				y := expand(x.Y, b, t, f)
+				return expand(x.X, b, t, y)
+			}
+		case *ast.UnaryExpr:
+			if x.Op == token.NOT {
+				return expand(x.X, b, f, t)
+			}
+		}
+		n := newNode(NNormal, e, b)
+		own(e, n)
+		et := link(n, t)
+		et.Cond, et.Branch = e, +1
+		ef := link(n, f)
+		ef.Cond, ef.Branch = e, -1
+		return n
+	}
 	for _, b := range c.Blocks {
 		if !b.Live {
 			continue
 		}
 		ln := last[b]
+		if pe, ok := pending[b]; ok {
+			entry := expand(pe, b, first[b.Succs[0]], first[b.Succs[1]])
+			g.owner[pe] = entry
+			link(ln, entry)
+			continue
+		}
 		if len(b.Succs) == 0 {
 			if ln.Ast != nil {
 				if es, ok := ln.Ast.(*ast.ExprStmt); ok {
@@ -179,23 +235,15 @@ func (p *Prog) Graph(f *Func) *Graph {
 		for i, s := range b.Succs {
 			e := link(ln, first[s])
 			if len(b.Succs) == 2 && ln.Ast != nil {
-				if ce, ok := ln.Ast.(ast.Expr); ok {
-					isCond := false
-					switch b.Succs[0].Kind {
-					case cfg.KindIfThen, cfg.KindForBody, cfg.KindSwitchCaseBody:
-						isCond = true
+				if ce, ok := ln.Ast.(ast.Expr); ok && b.Succs[0].Kind != cfg.KindRangeBody {
+					if t, ok := caseTag[ce]; ok {
+						e.Tag = t
 					}
-					// `for cond {}`: succs are body, done.
-					if isCond {
-						if t, ok := caseTag[ce]; ok {
-							e.Tag = t
-						}
-						e.Cond = ce
-						if i == 0 {
-							e.Branch = +1
-						} else {
-							e.Branch = -1
-						}
+					e.Cond = ce
+					if i == 0 {
+						e.Branch = +1
+					} else {
+						e.Branch = -1
 					}
 				}
 			}
